@@ -64,7 +64,7 @@ RULE = ("generated modules: 2-7 Structure classes (annotation and assignment sty
         "byte-identity under 1-2 other PYTHONHASHSEEDs in fresh interpreters; Enum fields over plain values (hostile strings: quotes, backslashes, "
         "line breaks, non-ASCII, brackets; list / tuple / Enum[...] / SET-valued under other hash seeds); shared-ancestor hierarchies (6 diamond shapes, "
         "overriding along one branch, flags anywhere, the constant-shadowing family); stub default != runtime default; subclasses of classes with a "
-        "user-written __init__; per module every def/class header of the real stub and ~8 token-level mutations of them through the Lean lexer + "
+        "user-written __init__; the module import block in every form (plain, dotted, aliased, aliased dotted, several names, from-imports) alone and mixed; per module every def/class header of the real stub and ~8 token-level mutations of them through the Lean lexer + "
         "recogniser and CPython's ast.parse; a case is non-trivial if a class has "
         ">= 2 own fields or a non-trivial base; distinct by sha256 of the canonical case")
 ASSUMPTIONS = [
@@ -83,14 +83,14 @@ TRUSTED_EXTRA = [
 
 def cases(rng, tier):
     S.reset_work()
-    cs = ([json.loads(json.dumps(c)) for c in S.CORPUS] + S.zoo_cases(rng, tier) + S.sig_cases(rng, tier) + S.const_cases(rng, tier) + S.mi_cases(rng, tier) + S.enumvals_cases(rng, tier) + S.diamond_cases(rng, tier) + S.apd_cases(rng, tier) + S.inh_init_cases(rng, tier)
+    cs = ([json.loads(json.dumps(c)) for c in S.CORPUS] + S.zoo_cases(rng, tier) + S.sig_cases(rng, tier) + S.const_cases(rng, tier) + S.mi_cases(rng, tier) + S.enumvals_cases(rng, tier) + S.diamond_cases(rng, tier) + S.apd_cases(rng, tier) + S.inh_init_cases(rng, tier) + S.import_cases(rng, tier)
           + S.gen_cases(rng, tier, 450 if tier == "quick" else 6000))
     S.prepare(cs)
     return cs
 
 
 def search_cases(rng, tier):
-    cs = S.zoo_cases(rng, tier) + S.sig_cases(rng, tier) + S.const_cases(rng, tier) + S.mi_cases(rng, tier) + S.enumvals_cases(rng, tier) + S.diamond_cases(rng, tier) + S.apd_cases(rng, tier) + S.inh_init_cases(rng, tier) + S.gen_cases(rng, "thorough", 150)
+    cs = S.zoo_cases(rng, tier) + S.sig_cases(rng, tier) + S.const_cases(rng, tier) + S.mi_cases(rng, tier) + S.enumvals_cases(rng, tier) + S.diamond_cases(rng, tier) + S.apd_cases(rng, tier) + S.inh_init_cases(rng, tier) + S.import_cases(rng, tier) + S.gen_cases(rng, "thorough", 150)
     S.prepare(cs)
     return cs
 
